@@ -799,8 +799,39 @@ def waker_store(ctx, facts):
         eq_ok = "Equal" in arms and any(flow.dominates(dom, arms["Equal"], bb) for bb, t in flow.find_calls(sa, re.compile(r"IndexMut::index_mut$")))
         ok3 = cmp_ok and less_ok and front_ok and eq_ok
         why3 = "Equal: replace at j; Less: insert(j + 1); all greater: insert(0)" if ok3 else ("the comparison is not wakers[j].i against i" if not cmp_ok else ("an entry smaller than i is not followed by the new waker at j + 1" if not less_ok else ("when every stored index is greater the new waker is not inserted at the front: the deque is no longer sorted and wake() stops searching before it finds the waker" if not front_ok else "an equal index is not replaced in place")))
+    elif set(writers) <= {"insert"} and ins:
+        # another way of writing the search (rposition / position / partition_point / binary_search ..): decide the
+        # structural core only - every insert position is 0 or (found position + 1), the position comes from a scan of
+        # the deque, and the scan compares a stored entry's index with the index being added
+        flow_old = flow.CLOSURE_DEFS
+        flow.CLOSURE_DEFS = True
+        try:
+            pos_ok = True
+            for bb, t in ins:
+                ix = flow.strip_casts(flow.expr_of(sa, t["args"][1], max_depth=12))
+                if ix == ("const", 0):
+                    continue
+                j_ = None
+                if ix[0] == "bin" and ix[1].replace("WithOverflow", "") == "Add" and ("const", 1) in ix[2:]:
+                    j_ = ix[2] if ix[3] == ("const", 1) else ix[3]
+                if j_ is None or not re.search(r"Iterator::(rposition|position|next)|partition_point|binary_search", str(j_)) or "wakers" not in str(j_):
+                    pos_ok = False
+            cmp_ok = False
+            for p_, cb in facts.bodies.items():
+                if p_.startswith(sa.path + "::{closure"):
+                    r_ = flow.expr_of(cb, {"cp": [0]}, max_depth=8)
+                    txt = str(r_)
+                    if re.search(r"'(Le|Lt|Ge|Gt|Eq)'|PartialOrd::(le|lt|ge|gt)|Ord::cmp", txt) and "'i'" in txt and "upvar" in txt:
+                        cmp_ok = True
+            if cmpc:
+                c0, c1 = (flow.expr_of(sa, a, max_depth=8) for a in cmpc[0][1]["args"])
+                cmp_ok = cmp_ok or ("wakers" in str(c0) and c1 == ("arg", 3))
+        finally:
+            flow.CLOSURE_DEFS = flow_old
+        ok3 = pos_ok and cmp_ok
+        why3 = "every insert position is 0 or one past a position found by scanning the stored indices against i" if ok3 else ("an insert position is neither 0 nor (position found by a scan of the deque) + 1: the deque does not stay sorted by index" if not pos_ok else "the search that positions the new waker does not compare stored indices with the index being added")
     elif writers != ["insert", "insert"]:
-        why3 = f"WaitingShard::add modifies the deque with {writers}: expected exactly the two sorted inserts"
+        why3 = f"WaitingShard::add modifies the deque with {writers}: expected only sorted inserts (and in-place replacement)"
     ctx.ob("SORTED-wakers", "sorted-insert", ok3, why3, site_of(sa, ins[0][0]) if ins else site_of(sa))
 
 
